@@ -139,6 +139,48 @@ func (r *replayer) run(pkgDir, harness string, values map[string]string, tag str
 	return &oc, in, nil
 }
 
+// runReplay re-runs a recorded counterexample against the native build of the current tree.
+func runReplay(e *Engine, prop, path string) int {
+	var rec struct {
+		Harness string            `json:"harness"`
+		Package string            `json:"package"`
+		Label   string            `json:"label"`
+		Kind    string            `json:"kind"`
+		Values  map[string]string `json:"values"`
+	}
+	if err := loadJSON(path, &rec); err != nil {
+		fmt.Printf("INCONCLUSIVE property=%s cannot read replay file: %v\n", prop, err)
+		return 3
+	}
+	tmp, _ := os.MkdirTemp("", "verif-replay-")
+	defer os.RemoveAll(tmp)
+	rp := &replayer{e: e, tmp: tmp, bins: map[string]string{}, binErr: map[string]error{}, harness: map[string][]string{}}
+	pkgDir := ""
+	for _, fn := range e.findHarnesses(prop + "_") {
+		d := pkgDirOf(fn)
+		rp.harness[d] = append(rp.harness[d], fn.Name())
+		if fn.Name() == rec.Harness {
+			pkgDir = d
+		}
+	}
+	if pkgDir == "" {
+		fmt.Printf("INCONCLUSIVE property=%s harness %s not found\n", prop, rec.Harness)
+		return 3
+	}
+	oc, _, err := rp.run(pkgDir, rec.Harness, rec.Values, "replay")
+	if err != nil {
+		fmt.Printf("INCONCLUSIVE property=%s %v\n", prop, err)
+		return 3
+	}
+	fmt.Printf("replay harness=%s failed=%v panic=%q assume_violated=%v covers=%v\n", rec.Harness, oc.Failed, oc.Panic, oc.AssumeViolated, oc.Covers)
+	if len(oc.AssumeViolated) == 0 && (len(oc.Failed) > 0 || oc.Panic != "") {
+		fmt.Printf("VIOLATION property=%s replay=%s\n", prop, path)
+		return 1
+	}
+	fmt.Printf("property=%s replay does not violate the property on this tree\n", prop)
+	return 0
+}
+
 type checkResult struct {
 	exit int
 }
